@@ -12,7 +12,7 @@ WITNESS_PROPS = {
     "w04_poison_private": ("C07", "C09"), "w05_from_bytes_unchecked": ("C02", "C14"), "w06_validate_unchecked": ("C01", "C02"),
     "w07_emplace_unchecked": ("C14", "C15"), "w08_as_mut_bytes": ("C14",), "w09_portable_native_field": ("C17",),
     "w10_portable_tag": ("C17",), "w11_vec_native_elem": ("C17",), "w12_vec_native_len": ("C17",), "w13_string_native_len": ("C17",),
-    "w14_flex_native_len": ("C17",), "w15_flex_native_item": ("C17",), "w16_unchecked_ref_data": ("C12",), "w17_wrap_unchecked": ("C02",),
+    "w14_flex_native_len": ("C17",), "w15_flex_native_item": ("C17",), "w16_unchecked_ref_data": ("C12",), "w17_wrap_unchecked": ("C02",), "w18_portable_clike_tag": ("C17",),
 }
 TWIN = {"w11_vec_native_elem": "t11_portable_containers", "w12_vec_native_len": "t11_portable_containers", "w13_string_native_len": "t11_portable_containers",
         "w14_flex_native_len": "t11_portable_containers", "w15_flex_native_item": "t11_portable_containers"}
